@@ -7,7 +7,6 @@ import re
 
 from harness.engine import termbytes
 from harness.engine import tlc as T
-from harness.engine.core import chunks
 
 SPEC = os.path.join(T.SPECS, "ProgressBar")
 OPS = ["start", "advance", "set", "display", "clear", "finish"]
@@ -396,8 +395,7 @@ def run(ctx):
         if nontrivial(case):
             ctx.nontriv(("r", t))
     ctx.sample({"random_case": {k: (v[:10] if k == "ops" else v) for k, v in cases[-1].items()}})
-    for pt, pc in zip(chunks(traces, 2500), chunks(cases, 2500)):
-        ctx.validate(SPEC, "ProgressBarTrace", "ProgressBarTrace.cfg", pt, cases=pc, name="recorded-sequences")
+    ctx.validate(SPEC, "ProgressBarTrace", "ProgressBarTrace.cfg", traces, cases=cases, name="recorded-sequences")
 
 
 def replay(ctx, path):
